@@ -42,12 +42,33 @@ NEEDS.update({
  "C17b": "--run-space-max-runs 0 (or max_runs: 0 in YAML) with a non-empty plan: `or 1000` swallows the zero cap",
  "C18b": "one orchestrator executing more than one run (reused Pipeline, launch): per-run processor instances retained by a memo keyed on the instance",
 })
+NEEDS.update({
+ "C01c": "two template: shorthands with the same output key and different template strings resolved in one process (class memo keyed by class name)",
+ "C02c": "a defaulted parameter whose key is required earlier/later and deleted after (or re-created after) the defaulted node: deleted-state read at end of pipeline",
+ "C03c": "a sweep variable written {values: [x, y]} with exactly two numbers (silently becomes a 10-step range)",
+ "C04c": "an earlier sweep in the same interpreter with ==-equal but differently typed values (class memo in preprocess_node_config)",
+ "C05c": "two sweep expressions differing only in the multiplicity of an operand of one + or * chain (t vs t*t)",
+ "C06c": "a run failing on an unresolvable parameter (parameter_sources value 'required')",
+ "C07c": "a node whose only context effect is deleting keys (post_context digest copied from pre_context)",
+ "C08c": "two blocks reading the same file with the same select, renaming the same column to different targets",
+ "C09c": "a run_space block containing integral-valued floats (trace-side canonicaliser folds 2.0 to 2, inspect-side does not)",
+ "C10c": "a traced sweep preceded in the same interpreter by a traced cosmetic twin (same semantic id, other spelling of the expression)",
+ "C11c": "a pure-literal sweep expression containing a list/dict/set display, entering through the sweep factory",
+ "C12c": "a subtraction whose right operand contains another subtraction: a - (b - c)",
+ "C13c": "a partial run finalised more than once (problems list aliased into per-run state)",
+ "C14c": "an exact-pattern subscriber iterating concurrently with the first publish to a not-yet-existing channel",
+ "C16c": "a plain component without a docstring wrapped in a source / sink / probe node",
+ "C17c": "two generated processors with one class name and different parameters in one pipeline, the later needing an unsupplied key",
+ "C18c": "jobs executed by the queue worker (one stdlib logger registered per job id)",
+})
 CAUGHT = {
  "C15": "C14 quick and C15 quick (after adding random line-boundary yields to C15)",
  "C05": "C05 quick (after adding + <-> * expression mutations) and C12 quick",
 }
 CAUGHT.update({"C07b": "C07 quick and C01 quick (after None-valued context entries were added to the model)"})
-STRENGTHENED = {"C03", "C04", "C05", "C07", "C08", "C15", "C17", "C05b", "C07b", "C10b", "C11b"}
+CAUGHT.update({"C17c": "C17 quick and C02 quick (after the strengthening noted)"})
+STRENGTHENED = {"C03", "C04", "C05", "C07", "C08", "C15", "C17", "C05b", "C07b", "C10b", "C11b",
+                "C08c", "C10c", "C11c", "C16c", "C17c"}
 for pid in sorted(os.listdir(os.path.join(HERE, "seeded"))):
     d = os.path.join(HERE, "seeded", pid)
     vf = os.path.join(d, "verify.json")
@@ -57,7 +78,7 @@ for pid in sorted(os.listdir(os.path.join(HERE, "seeded"))):
     meta = {
         "property": pid[:3],
         "check": pid[:3],
-        "round": 2 if len(pid) > 3 else 1,
+        "round": {"": 1, "b": 2, "c": 3}[pid[3:]],
         "origin": "fresh sub-agent given only the property text and a scratch worktree" + (" (plus the note that registry growth is already known)" if pid == "C18" else ""),
         "summary": first[:300],
         "needs_to_manifest": NEEDS.get(pid, ""),
